@@ -394,9 +394,11 @@ Definition assemble_contours (sgs : list (pt * pt)) : list (list pt) :=
                     {| cur := 0; conts := []; starts := []; ends := [] |})).
 
 (* ======================================================================
-   features/contour.py : get_contour for one mask (given transposed, as it
-   is handed to find_contours); positive_orientation="low": no reversal,
-   fully_connected="high".
+   features/contour.py : get_contour for one mask (given transposed);
+   positive_orientation="low": no reversal, fully_connected="high".
+   [get_contour_unpadded] is the code before commit 726e2fa (contours of
+   border-touching masks were left open), kept for the refutation example;
+   [get_contour] further down is the current code.
    ====================================================================== *)
 (* sorted(conts, key=len)[-1]: the last one among the longest *)
 Fixpoint longest (best : list pt) (l : list (list pt)) : list pt :=
@@ -416,7 +418,7 @@ Inductive contour_result :=
 | CtIndexError        (* no contour at all: sorted([])[-1] *)
 | CtValueError.       (* array smaller than 2x2 *)
 
-Definition get_contour (img_t : image) : contour_result :=
+Definition get_contour_unpadded (img_t : image) : contour_result :=
   match iterate_and_store img_t true with
   | None => CtValueError
   | Some sgs =>
@@ -429,16 +431,16 @@ Definition get_contour (img_t : image) : contour_result :=
       end
   end.
 
-(* get_contour after the proposed repair (fixes_proposed/C18-contour-border):
-   the transposed mask is padded with one pixel of background so that the
-   contours of border-touching events are closed; coordinates are shifted
-   back; no contour at all raises NoValidContourFoundError *)
+(* get_contour (current code, commit 726e2fa): the transposed mask is padded
+   with one pixel of background so that the contours of border-touching
+   events are closed; coordinates are shifted back; no contour at all
+   raises NoValidContourFoundError *)
 Definition pad_image (img : image) : image :=
   let w := ncols img in
   let blank := repeat false (w + 2) in
   blank :: map (fun row => false :: row ++ [false]) img ++ [blank].
 
-Definition get_contour_fixed (img_t : image) : contour_result :=
+Definition get_contour (img_t : image) : contour_result :=
   match iterate_and_store (pad_image img_t) true with
   | None => CtValueError
   | Some sgs =>
@@ -521,7 +523,7 @@ Definition get_bright_bc (mask : list bool) (img bg : list Z)
                variance v)
   end.
 
-(* get_bright_perc (after the proposed repair: `if bg_off is not None`);
+(* get_bright_perc (current code, commit 3735645: `if bg_off is not None`);
    None = np.percentile of an empty selection (nan) *)
 Definition get_bright_perc (mask : list bool) (img bg : list Z)
            (off : option Q) : option (Q * Q) :=
@@ -677,25 +679,19 @@ Definition run_find_contours (x : image * bool) : list (list Z) :=
   | Some s => map enc_pts (assemble_contours s)
   end.
 
+Definition enc_contour_result (r : contour_result) : list Z :=
+  match r with
+  | CtOk c => 1 :: enc_pts c
+  | CtNoContour => [2]
+  | CtIndexError => [3]
+  | CtValueError => [4]
+  end.
+
 Definition run_get_contour (img_t : image) : list Z :=
-  match get_contour img_t with
-  | CtOk c => 1 :: enc_pts c
-  | CtNoContour => [2]
-  | CtIndexError => [3]
-  | CtValueError => [4]
-  end.
+  enc_contour_result (get_contour img_t).
 
-Definition run_get_contour_fixed (img_t : image) : list Z :=
-  match get_contour_fixed img_t with
-  | CtOk c => 1 :: enc_pts c
-  | CtNoContour => [2]
-  | CtIndexError => [3]
-  | CtValueError => [4]
-  end.
-
-(* both variants: [as-is encoding; repaired encoding] *)
-Definition run_get_contour_both (img_t : image) : list (list Z) :=
-  [run_get_contour img_t; run_get_contour_fixed img_t].
+Definition run_get_contour_unpadded (img_t : image) : list Z :=
+  enc_contour_result (get_contour_unpadded img_t).
 
 Definition dq (n : Z) : Q := n # 8.   (* offsets are multiples of 1/8 *)
 
